@@ -18,7 +18,8 @@ REPO = Path(os.environ.get("SMOOTHMATH_REPO", "/repo"))
 LEAN = VERIF / "lean"
 DRIVER = LEAN / ".lake" / "build" / "bin" / "driver"
 EVIDENCE = Path(os.environ.get("VERIF_EVIDENCE_DIR", VERIF / "evidence"))   # runs against seeded changes write elsewhere
-REPLAYS = VERIF / "replays"
+REPLAYS = Path(os.environ.get("VERIF_REPLAY_DIR", VERIF / "replays"))
+CORPUS = VERIF / "corpus"
 
 sys.path.insert(0, str(REPO / "src"))
 sys.setrecursionlimit(100000)
@@ -247,7 +248,7 @@ Report.corr_break = _corr_break
 
 
 def write_replay(pid: str, v: dict, seed: int, tier: str) -> Path:
-    REPLAYS.mkdir(exist_ok=True)
+    REPLAYS.mkdir(parents=True, exist_ok=True)
     p = REPLAYS / f"{pid}_{tier}_{seed}_{abs(hash(json.dumps(v, sort_keys=True, default=str))) % 10**8}.json"
     p.write_text(json.dumps({"property": pid, "seed": seed, "tier": tier, **v}, indent=1, default=str))
     return p
